@@ -85,6 +85,9 @@ pub enum Step {
     /// the HTTP/1 connection created by `conn_of`'s dial finished its exchange (body consumed)
     ConnReady { conn_of: u32 },
     ConnClose { conn_of: u32 },
+    /// the busy HTTP/1 connection wakes whoever waits for its readiness without being ready (a
+    /// body frame went by; wake-ups may always be spurious)
+    ConnWake { conn_of: u32 },
     Bg,
     Advance { ms: u64 },
     DropService,
@@ -112,6 +115,7 @@ impl Step {
             Step::Advance { .. } => 14,
             Step::DropService => 15,
             Step::Gate { .. } => 16,
+            Step::ConnWake { .. } => 17,
         }
     }
 }
@@ -219,6 +223,7 @@ struct Weights {
     respond_err: u32,
     conn_ready: u32,
     conn_close: u32,
+    conn_wake: u32,
     bg: u32,
     advance: u32,
     drop_service: u32,
@@ -241,6 +246,7 @@ fn weights_for(profile: &str, r: &mut Rng, faulty: bool) -> Weights {
         respond_err: 1,
         conn_ready: 12,
         conn_close: 3,
+        conn_wake: 3,
         bg: 12,
         advance: 0,
         drop_service: 0,
@@ -251,6 +257,7 @@ fn weights_for(profile: &str, r: &mut Rng, faulty: bool) -> Weights {
         "C02" => {
             w.h2_pct = 15;
             w.respond_upgrade = 3;
+            w.conn_wake = 8;
             w.cancel = 8;
             w.conn_close = 2;
             w.advance = 4;
@@ -385,12 +392,12 @@ fn gen_cfg(profile: &str, r: &mut Rng) -> PoolCfg {
         lazy_send: r.chance(1, 3),
         gate_transport: match profile {
             "C14" => r.chance(1, 2),
-            "C03" | "C15" => r.chance(1, 4),
+            "C03" | "C15" | "C17" | "C19" => r.chance(1, 4),
             _ => false,
         },
         gate_inner: match profile {
             "C15" => r.chance(1, 2),
-            "C03" | "C14" => r.chance(1, 4),
+            "C03" | "C14" | "C17" | "C19" => r.chance(1, 4),
             _ => false,
         },
     }
@@ -461,6 +468,9 @@ struct Run<'a> {
     /// per origin index: a cancel happened and background work has not run since, so a
     /// connection may be on its way back to the pool (dropped inside a waiter channel)
     dirty_since_cancel: Vec<bool>,
+    /// per request: its waker had been invoked and it had not been polled since, when the
+    /// current step began
+    woken_before_step: Vec<bool>,
 }
 
 pub struct PoolSim {
@@ -581,6 +591,9 @@ impl<'a> Run<'a> {
             if c.open && wt.conn_close > 0 {
                 v.push((wt.conn_close, Step::ConnClose { conn_of: o }));
             }
+            if !c.h2 && c.busy && c.open && !c.ready_wakers.is_empty() && wt.conn_wake > 0 {
+                v.push((wt.conn_wake, Step::ConnWake { conn_of: o }));
+            }
         }
         v.push((wt.bg, Step::Bg));
         if wt.advance > 0 {
@@ -631,6 +644,7 @@ impl<'a> Run<'a> {
             Step::RespondErr { req } => Step::RespondErr { req: m(req)? },
             Step::ConnReady { conn_of } => Step::ConnReady { conn_of: m(conn_of)? },
             Step::ConnClose { conn_of } => Step::ConnClose { conn_of: m(conn_of)? },
+            Step::ConnWake { conn_of } => Step::ConnWake { conn_of: m(conn_of)? },
         })
     }
 
@@ -648,6 +662,7 @@ impl<'a> Run<'a> {
             Step::RespondErr { req } => Step::RespondErr { req: m(req) },
             Step::ConnReady { conn_of } => Step::ConnReady { conn_of: m(conn_of) },
             Step::ConnClose { conn_of } => Step::ConnClose { conn_of: m(conn_of) },
+            Step::ConnWake { conn_of } => Step::ConnWake { conn_of: m(conn_of) },
             other => other,
         }
     }
@@ -661,6 +676,7 @@ impl<'a> Run<'a> {
     /// Execute a step written with slot ids.
     async fn apply_slots(&mut self, step: &Step) -> bool {
         self.sync_clock();
+        self.woken_before_step = self.reqs.iter().map(|r| r.waker.woken.load(Ordering::SeqCst)).collect();
         match step {
             Step::Issue { req, origin, ver } => {
                 if self.lmap.contains_key(req) {
@@ -822,6 +838,21 @@ impl<'a> Run<'a> {
                 w.ev(34, c as u64, 0);
                 let wakers = std::mem::take(&mut w.conns[c].ready_wakers);
                 drop(w);
+                for wk in wakers {
+                    wk.wake();
+                }
+                true
+            }
+            Step::ConnWake { conn_of } => {
+                let mut w = self.w.lock();
+                let Some(c) = self.conn_of(*conn_of, &w) else { return false };
+                if w.conns[c].h2 || !w.conns[c].busy || !w.conns[c].open || w.conns[c].ready_wakers.is_empty() {
+                    return false;
+                }
+                w.ev(35, c as u64, 0);
+                let wakers = std::mem::take(&mut w.conns[c].ready_wakers);
+                drop(w);
+                self.out.count("fault.spurious_readiness_wakeup");
                 for wk in wakers {
                     wk.wake();
                 }
@@ -1553,7 +1584,19 @@ impl<'a> Run<'a> {
                 if self.reqs[j].expect.is_some() {
                     continue; // already served by an earlier hand-back / registration
                 }
-                if self.reqs[j].had_idle_at_issue {
+                // A request whose own attempt is in flight is connecting, and a connecting checkout
+                // keeps a live waiter (registered at issue or when it retried after the attempt it
+                // had waited for ended). Alone in the queue, there is no doubt about the order.
+                // (and nothing can be sitting in its channel from an earlier, unjudged hand-back: that
+                // would have woken it, and it has not been woken since its last poll)
+                let surely_waiting = cands.len() == 1 && !self.woken_before_step.get(j).copied().unwrap_or(true) && {
+                    let w = self.w.lock();
+                    w.dials.iter().rev().find(|d| d.owner == Some(j as u32)).map(|d| w.attempt_in_flight(d.id)).unwrap_or(false)
+                };
+                if surely_waiting && self.reqs[j].had_idle_at_issue {
+                    self.out.count("probe.retried_waiter_judged");
+                }
+                if self.reqs[j].had_idle_at_issue && !surely_waiting {
                     if h2 {
                         continue;
                     }
@@ -1574,7 +1617,10 @@ impl<'a> Run<'a> {
                         "connection {} was made available to request {} (a live waiter, polled {} times) at step {}, but the request's waker was not invoked",
                         c, j, self.reqs[j].polls, cur_step
                     );
-                    self.viol("C03", "handback_did_not_wake", json!({"h2": h2}), detail);
+                    self.viol("C03", "handback_did_not_wake", json!({"h2": h2}), detail.clone());
+                    // the same event seen from C14: a request that is not woken has no "next
+                    // poll" at which to take the connection - it goes on waiting for its own dial
+                    self.viol("C14", "freed_connection_did_not_wake_waiter", json!({"h2": h2}), detail);
                 }
                 if h2 {
                     // a shareable connection is cloned to every live waiter
@@ -2113,6 +2159,7 @@ impl PoolSim {
                 lmap: BTreeMap::new(),
                 rmap: vec![],
                 dirty_since_cancel: vec![false; case.cfg.origins.len()],
+                woken_before_step: vec![],
             };
             match &case.steps {
                 Some(steps) => {
